@@ -1,6 +1,7 @@
 import LcmProofs.InterpT
 import LcmProofs.LogGrid
 import LcmProofs.Basic
+import LcmProofs.InterpCorners
 namespace Lcm
 
 /-! # C15 — interpolation kernel and grid coordinates are exact inverses of the grids
@@ -9,6 +10,17 @@ Model: `interp` (`LcmModel/Interp2.lean`), the recursive form of `map_coordinate
 `clip(floor(c), 0, size-2)`, weights `1-w`, `w` with `w = c - lower`, *not* clipped - hence linear
 extrapolation); `coordOf` / `get_linspace_coordinate`; `logCoord` = `get_logspace_coordinate` transcribed
 line by line over ℝ (`LcmProofs/LogGrid.lean`; the driver runs the same text over `Float`). -/
+
+/-- the code's corner-product sum (`itertools.product` over the per-axis pairs `[(lower, 1-w), (lower+1, w)]`, product of
+the weights times the entry, summed over the 2^rank corners) **equals** the recursive form `interp` that the other
+theorems are about - for every rank -/
+theorem C15_corner_eq_rec (t : Tensor Rat) (cs : List Rat) (h : cs.length = t.shape.length) :
+    interpCorners t cs = interp t cs := interpCorners_eq_interp t cs h
+
+/-- hence the value is the blend of the 2^rank surrounding entries with product weights -/
+theorem C15_multilinear (t : Tensor Rat) (cs : List Rat) (h : cs.length = t.shape.length) :
+    interp t cs = ((cornerProduct ((t.shape.zip cs).map fun p => axisData p.1 p.2)).map fun corner =>
+      weightProduct corner * t.get (corner.map (·.1))).sum := (interpCorners_eq_interp t cs h).symm
 
 /-- integer coordinates return the array entries (any rank, every axis of size ≥ 2) -/
 theorem C15_integer_coords (t : Tensor Rat) (idx : List Nat) (hb : InBounds t.shape idx)
